@@ -188,7 +188,7 @@ def items_st(draw, alias, min_items=1, max_items=4, eid_scheme=None):
 
 
 @st.composite
-def mr_var_st(draw, alias, n, min_items=1, max_items=4, eid_scheme=None):
+def mr_var_st(draw, alias, n, min_items=1, max_items=4, eid_scheme=None, derived=False):
     items = draw(items_st(alias, min_items, max_items, eid_scheme))
     k = len(items)
     # --- per-item missingness: some items "not shown" to many respondents
@@ -201,8 +201,40 @@ def mr_var_st(draw, alias, n, min_items=1, max_items=4, eid_scheme=None):
             for i in range(k)]
     for r in range(n):
         answers.append([cols[i][r] for i in range(k)])
-    return {"type": "mr", "alias": alias, "name": alias.upper(), "items": items,
-            "answers": answers}
+    var = {"type": "mr", "alias": alias, "name": alias.upper(), "items": items,
+           "answers": answers}
+    if derived and k >= 1 and draw(st.booleans()):
+        add_derived_item(draw, var)
+    return var
+
+
+def add_derived_item(draw, var):
+    """A zz9-computed 'insertion' on an MR: a derived sub-variable (any_selected of some
+    items) placed in the payload at its anchor, plus the view insertion describing it."""
+    items = var["items"]
+    k = len(items)
+    src = draw(st.lists(st.integers(0, k - 1), min_size=1, max_size=2, unique=True))
+    anchor_kind = draw(st.sampled_from(["top", "bottom", "before", "after"]))
+    target = draw(st.integers(0, k - 1))
+    if anchor_kind in ("top", "bottom"):
+        anchor = anchor_kind
+        pos = 0 if anchor_kind == "top" else k
+    else:
+        anchor = {"position": anchor_kind, "alias": items[target]["alias"]}
+        pos = target if anchor_kind == "before" else target + 1
+    name = "any_" + "_".join(str(i) for i in src)
+    new_eid = max(it["eid"] for it in items) + 1
+    ditem = {"eid": new_eid, "sid": name, "alias": "%s_d" % var["alias"], "name": name,
+             "derived": True, "anchor": anchor}
+    items.insert(pos, ditem)
+    for a in var["answers"]:
+        states = [a[i] for i in src]
+        st_ = 1 if 1 in states else (-1 if all(x == -1 for x in states) else 0)
+        a.insert(pos, st_)
+    var["view_insertions"] = [{"function": "any_selected", "name": name, "anchor": anchor,
+                               "kwargs": {"variable": var["alias"],
+                                          "subvariable_ids": [items[i if i < pos else i + 1]["alias"]
+                                                              for i in src]}}]
 
 
 @st.composite
